@@ -2519,7 +2519,7 @@ def main(run: core.Run) -> None:
                      "per position for every other operator effective in opsets 13/18/21/23; " if quick else
                      "thorough: every (op, since_version) effective in opsets 13..23 x every position (incl. two variadic tail positions) x the 8 "
                      "literals x 7 sibling dtypes (known and unknown to the builder) + absent + same-literal; ")
-        + "the Lean table theorem registry_ok covers the full cross product for every row in both tiers",
+        + "the Lean table theorem registry_ok evaluates, for every row in both tiers, every position x the 8 literals x 16 fixed sibling probes (7 dtypes known/unknown, absent, same literal) — not all dtypes",
     )
     required = ["static_castlike", "static_plain_const", "dynamic_overflow", "builder_overflow", "mixed_list_three_way", "tail_homogeneous",
                 "tail_nonhomogeneous", "tail_toomany", "conflicting_siblings", "arg_tensor_unknown", "arg_none", "arg_list",
